@@ -24,7 +24,7 @@ func init() {
 		Level:     "fault_enumeration",
 		Technique: "exhaustive fault enumeration at the io.Writer seam: for every renderer and table, every index k of a Write call of the fault-free run x every failure mode (deviation-bounded: 1 and 2 scripted deviations) on the real RenderTo",
 		Rule: "9 tables (header/no header, separators, short rows needing padding, zero-cell rows, multi-line cells, zero columns) x 9 renderers (csv, json, markdown, html, html+row classes, text heavy/ascii/none/custom) x writer kind {plain io.Writer, io.StringWriter too}; the fault-free run gives W = number of Write calls and the reference bytes; " +
-			"then every k in 1..W x mode {fail from k on, fail only at k, accept half the bytes and return an error at k, accept half the bytes with a nil error (short write) at k}; plus every pair k1<k2 of single-call failures; " +
+			"then every k in 1..W x mode {fail from k on, fail only at k, accept half the bytes and return an error at k, accept half the bytes with a nil error (short write) at k}; plus every pair k1<k2 of single-call failures; family second-render-after-fault: on ONE long-lived wrapper a RenderTo failing at any k1/mode is followed by a second RenderTo (healthy or failing at any k2), which must satisfy the property as well; " +
 			"non-trivial = a run in which the injected fault was reached; distinct by (table, renderer, writer kind, k, mode)",
 		Assumptions: []string{"the writer is the only fault source", "after a single failed call later calls are accepted (a writer may recover); the property then still demands an error and a prefix up to the failure",
 			"a short write without error violates io.Writer's contract; there only 'no panic' and 'accepted bytes are a prefix... up to the short write' are not demanded - the mode is explored for panics only"},
@@ -156,6 +156,7 @@ func runC15(x *X) {
 			}
 		}
 	}
+	c15SecondRender(x)
 	modeNames := []string{"", "fail from k on", "fail only at k", "partial write with error at k", "short write without error at k", "fail only at k1 and k2"}
 	x.Explore("single-fault", ExploreOpts{ShardDepth: 3, Bound: "every (table, renderer, writer kind) x every Write index k of the fault-free run x 4 failure modes"}, func(c *Chooser) {
 		ti, ri, wk := c.Choose(len(tables)), c.Choose(len(rends)), c.Choose(2)
@@ -184,6 +185,87 @@ func runC15(x *X) {
 			c15Run(x, c, tables[ti], rends[ri], wk, 2, k1, k2, r.bytes, r.err, modeNames)
 		})
 	}
+}
+
+// c15LongLived: wrappers that live across several RenderTo calls.
+func c15LongLived() []struct {
+	name string
+	mk   func(t tabular.Table) c14Renderer
+} {
+	return []struct {
+		name string
+		mk   func(t tabular.Table) c14Renderer
+	}{
+		{"csv", func(t tabular.Table) c14Renderer { return csv.Wrap(t) }},
+		{"json", func(t tabular.Table) c14Renderer { return tjson.Wrap(t) }},
+		{"markdown", func(t tabular.Table) c14Renderer { return markdown.Wrap(t) }},
+		{"html", func(t tabular.Table) c14Renderer { return thtml.Wrap(t) }},
+		{"html+rowclass", func(t tabular.Table) c14Renderer { return thtml.Wrap(t).SetRowClassGenerator(rowClassGen, nil) }},
+		{"text", func(t tabular.Table) c14Renderer { return texttable.Wrap(t) }},
+		{"text:none", func(t tabular.Table) c14Renderer { tt := texttable.Wrap(t); tt.SetDecorationNamed("none"); return tt }},
+	}
+}
+
+// c15SecondRender: on ONE long-lived wrapper, a RenderTo that fails at call k1 is followed by a second RenderTo
+// (clean, or failing at k2): the property must hold for the second call too.
+func c15SecondRender(x *X) {
+	tables := c15Tables()
+	mks := c15LongLived()
+	type ref struct {
+		bytes string
+		calls int
+		err   error
+	}
+	refs := map[[2]int]ref{}
+	for ti, tb := range tables {
+		for ri, m := range mks {
+			t := tabular.New()
+			tb.build(t)
+			fw := &faultWriter{}
+			err := m.mk(t).RenderTo(fw)
+			refs[[2]int{ti, ri}] = ref{fw.accepted.String(), fw.calls, err}
+		}
+	}
+	x.Explore("second-render-after-fault", ExploreOpts{ShardDepth: 3, Bound: "9 tables x 7 long-lived wrappers x first fault (every k1 x 3 modes) x second RenderTo clean or failing (every k2, fail from k2 on)"}, func(c *Chooser) {
+		ti, ri := c.Choose(len(tables)), c.Choose(len(mks))
+		r := refs[[2]int{ti, ri}]
+		if r.calls == 0 || r.err != nil {
+			c.Choose(1)
+			return
+		}
+		k1 := 1 + c.Choose(r.calls)
+		mode1 := 1 + c.Choose(3)
+		k2 := c.Choose(r.calls + 1) // 0 = clean writer
+		t := tabular.New()
+		tables[ti].build(t)
+		w := mks[ri].mk(t)
+		c.Logf("table %q, ONE %s wrapper: RenderTo(fail at call %d, mode %d); RenderTo(second writer, fail from call %d on; 0 = never)", tables[ti].name, mks[ri].name, k1, mode1, k2)
+		x.Transition(2)
+		tags := []string{"renderer:" + mks[ri].name, "second_render_on_same_wrapper_after_fault"}
+		fw2 := &faultWriter{}
+		if k2 > 0 {
+			fw2 = &faultWriter{mode: 1, k: k2}
+		}
+		var err2 error
+		if p, val, site := Safe(func() { w.RenderTo(&faultWriter{mode: mode1, k: k1}); err2 = w.RenderTo(fw2) }); p {
+			x.FailSite("C15.no_panic", append(tags, "panic"), site, "%s panicked: %v", mks[ri].name, val)
+			return
+		}
+		x.Nontrivial(fmt.Sprint(ti, ri, k1, mode1, k2))
+		x.Clause("C15.error_returned")
+		if fw2.reached && err2 == nil {
+			x.Fail("C15.error_returned", tags, "second RenderTo returned nil although its writer failed at call %d", k2)
+			return
+		}
+		x.Clause("C15.accepted_is_prefix")
+		if acc := fw2.accepted.String(); !strings.HasPrefix(r.bytes, acc) {
+			x.Fail("C15.accepted_is_prefix", tags, "second RenderTo on the same %s wrapper (after a first one that failed at call %d): accepted bytes are not a prefix of the fault-free output\naccepted: %q\nfault-free: %q", mks[ri].name, k1, acc, r.bytes)
+			return
+		}
+		if k2 == 0 && (err2 != nil || fw2.accepted.String() != r.bytes) {
+			x.Fail("C15.accepted_is_prefix", tags, "second RenderTo with a healthy writer on the same %s wrapper gives (err %v)\n%q\nwant\n%q", mks[ri].name, err2, fw2.accepted.String(), r.bytes)
+		}
+	})
 }
 
 func c15Run(x *X, c *Chooser, tb c10Table, rd c15Renderer, wk, mode, k, k2 int, refBytes string, refErr error, modeNames []string) {
